@@ -1,6 +1,7 @@
 package props
 
 import (
+	"context"
 	"encoding/json"
 	"fmt"
 	"math"
@@ -227,6 +228,7 @@ func c05Kinds() []kindVal {
 		// outside the float64 range by sheer length (no exponent), and tiny with many digits
 		{"n:400digits", json.Number("1" + strings.Repeat("0", 400)), false}, {"n:-400digits", json.Number("-" + strings.Repeat("9", 400)), false},
 		{"n:400digits.0", json.Number(strings.Repeat("9", 400) + ".0"), false}, {"n:309digits", json.Number("2" + strings.Repeat("0", 308)), false},
+		{"n:10", json.Number("10"), false}, {"n:1e308", json.Number("1e308"), false}, {"n:1e-320", json.Number("1e-320"), false}, {"n:-1.7e308", json.Number("-1.7e308"), false},
 		{"n:tiny400", json.Number("0." + strings.Repeat("0", 400) + "1"), false}, {"n:1E+400", json.Number("1E+400"), false}, {"n:-1.5e999", json.Number("-1.5e999"), false},
 		{"s:empty", "", false}, {"s:a", "a", false}, {"s:1", "1", false}, {"s:true", "true", false}, {"s:1e400", "1e400", false}, {"s:nan", "NaN", false},
 		{"arr:empty", []any{}, false}, {"arr:1a", []any{1.0, "a"}, false}, {"arr:nested", []any{[]any{1.0}, map[string]any{"a": nil}}, false},
@@ -400,6 +402,47 @@ func runC05(c *h.Ctx) {
 		}
 	}
 
+	// (b2) classification of what a cancellation turns into, when the context
+	// becomes done between two polls - in particular after the last poll of the
+	// operands of a predicate over thousands of item pairs
+	{
+		var a, b []string
+		for i := 0; i < 40; i++ {
+			a = append(a, fmt.Sprint(i))
+			b = append(b, fmt.Sprint(100+i))
+		}
+		bigDoc := fmt.Sprintf(`{"a":[%s],"b":[%s],"t":["12:00:00","13:00:00"],"z":"12:00:00+01"}`, strings.Join(a, ","), strings.Join(b, ","))
+		k := 0
+		for _, pt := range []string{"$.a[*] == $.b[*]", "$ ? (@.a[*] < @.b[*] && @.a[*] == @.b[*])", "strict ($.a[*] == $.b[*]) is unknown", "$.a[*] ? (@ == $.b[*])", "$.t[*].time() < $.z.time_tz()", "exists($.a[*] ? (@ >= $.b[*]))"} {
+			p := cachedPath(pt)
+			for _, entry := range h.Entries {
+				for _, silent := range []bool{false, true} {
+					k++
+					if p == nil || !c.Mine(k) {
+						continue
+					}
+					opts := h.Opts{Silent: silent, TZ: true, Zone: h.ParseZone("+05:30")}
+					base := h.Call(entry, p, h.Decode(bigDoc, false), opts)
+					for n := 1; n <= base.Polls; n++ {
+						for _, cause := range []error{context.Canceled, context.DeadlineExceeded} {
+							m := &h.CallMon{CancelAt: -1, CancelAfterPoll: n, Cause: cause}
+							o := h.CallMonitored(entry, p, h.Decode(bigDoc, n%2 == 0), opts, m)
+							c.Eval(1)
+							cs := h.Case{Kind: "cancel-class", Path: pt, Doc: bigDoc, Entry: entry, Silent: silent, TZ: true, Zone: "+05:30", Extra: map[string]string{"after-poll": fmt.Sprint(n)}}
+							switch o.Class {
+							case h.Panic:
+								c.Violate("panic", h.F("entry", entry, "site", stackSite(o.Stack)), fmt.Sprintf("%s(%s), context done after poll %d: panic %s", entry, pt, n, o.Panic), cs)
+							case h.Other:
+								c.Violate("class", h.F("entry", entry, "kind", "not-ErrExecution", "when", "context-done-between-polls"), fmt.Sprintf("%s(%s), context done after poll %d of %d: error %q wraps neither ErrExecution nor is NULL", entry, pt, n, base.Polls, o.Err), cs)
+							default:
+								c.Held("class")
+							}
+						}
+					}
+				}
+			}
+		}
+	}
 	// (c) deep and long documents (own journal entries: a fatal stack overflow kills the worker)
 	depths := []int{2000}
 	if c.Thorough() {
